@@ -108,6 +108,13 @@ fn same_picture(a: &Buffer, b: &Buffer, fonts: bool) -> Option<Diff> {
             let (p, q) = (shown(a, x, y), shown(b, x, y));
             let at = |f: &str, l: String, r: String| format!("cell ({x},{y}) {f}: {l} -> {r}; first {p:?} second {q:?}");
             let cell = Some((y * a.get_width() + x) as usize);
+            if p != q && !a.layers.is_empty() && !b.layers.is_empty() {
+                // a cell the loader never stored shows as a default blank: one symptom class, whatever field differs
+                let (va, vb) = (a.layers[0].get_char((x, y)).is_visible(), b.layers[0].get_char((x, y)).is_visible());
+                if va && !vb {
+                    return Some(Diff { field: "cell_missing", msg: at("stored cell", "set".to_string(), "unset (shows as default blank)".to_string()), cell });
+                }
+            }
             if p.ch != q.ch {
                 return Some(Diff { field: "char", msg: at("char", format!("{:#04x}", p.ch), format!("{:#04x}", q.ch)), cell });
             }
@@ -320,7 +327,7 @@ fn roundtrip(m: &Model, cells: &[Cell], orig: &Buffer, a: &Buffer) -> Result<(),
             "width" if m.w > 1000 => "|w>1000",
             // Tundra: no foreground command has been written yet (all cells so far are black on the writer's side)
             "fg" if m.fmt == Fmt::Tnd && (0..=d.cell.unwrap_or(0)).all(|k| pal[cells[k].fg as usize] == [0, 0, 0]) => "|black_before_first_fg_command",
-            "fg" | "bg" | "char" | "blink" | "glyph" if m.fmt == Fmt::Xb => {
+            "fg" | "bg" | "char" | "blink" | "glyph" | "cell_missing" if m.fmt == Fmt::Xb => {
                 if m.compress {
                     "|compressed"
                 } else {
@@ -396,6 +403,9 @@ fn resave(fmt: Fmt, a: &Buffer, opts: &icy_engine::SaveOptions) -> Result<(), (S
         Ok(b) => b,
         Err(e) => return Err((format!("{f}|resave|reload_error|{}", strip_digits(&e)), format!("the re-saved file is rejected: {e}"))),
     };
+    if a.get_height() < 0 || a.get_width() < 0 {
+        return Err((format!("{f}|resave|negative_size"), format!("the loader accepted the file and produced a {} x {} buffer", a.get_width(), a.get_height())));
+    }
     if let Some(d) = same_picture(a, &b, fmt.embeds_font()) {
         let (class, fold) = buffer_class(fmt, a, opts);
         let msg = format!("first load vs load(save(first load)): {}", d.msg);
@@ -616,13 +626,7 @@ fn check_fuzz(c: &FuzzCase) -> Verdict {
     // magnitude-driven work and memory are properties C02/C03
     match m.fmt {
         Fmt::Idf if refdec::idf_expanded_cells(&file) > 80 * 400 => return Verdict::discard("oversize idf run lengths"),
-        Fmt::Tnd => {
-            if let Err((c, _)) = refdec::decode_tnd(&file, 400) {
-                if c == "position_out_of_range" || c == "too_many_rows" {
-                    return Verdict::discard("oversize tnd position");
-                }
-            }
-        }
+        Fmt::Tnd if refdec::tnd_max_row(&file) > 400 => return Verdict::discard("oversize tnd position"),
         _ => {}
     }
     // acceptance = the loader returns Ok; a panic here is C02's subject, not a re-save question
@@ -664,7 +668,7 @@ fn main() {
     eng.assume("a buffer 'as an editor holds it' = one layer with every cell set, ice_mode Blink or Ice, fonts in slots 0 and 1, SaveOptions::new() + lossles_output + compress/save_sauce per case");
     eng.assume("fuzz parts: IDF files expanding to more than 400 rows and Tundra files jumping beyond row 400 are discarded (size-driven work belongs to C02/C03)");
 
-    let q = 6_000;
+    let q = 15_000;
     let t = 150_000;
     let cls = |m: &Model| m.fmt.ext().to_string();
     eng.generated_min(PartCfg::new("xb", q, t), || model::xb_models(false), check_model, cls, model::simpler);
@@ -673,8 +677,8 @@ fn main() {
     eng.generated_min(PartCfg::new("idf", q, t), || model::idf_models(false), check_model, cls, model::simpler);
     eng.generated_min(PartCfg::new("tnd", q, t), || model::tnd_models(false), check_model, cls, model::simpler);
 
-    let fq = 5_000;
-    let ft = 250_000;
+    let fq = 12_000;
+    let ft = 200_000;
     let fcls = |c: &FuzzCase| c.base.fmt.ext().to_string();
     eng.generated_min(PartCfg::new("xb_fuzz", fq, ft), || fuzz_cases(model::xb_models(true)), check_fuzz, fcls, simpler_fuzz);
     eng.generated_min(PartCfg::new("bin_fuzz", fq, ft), || fuzz_cases(model::bin_models(true)), check_fuzz, fcls, simpler_fuzz);
